@@ -54,7 +54,7 @@ def required(tier):
         'mission:built:from_toml', 'mission:built:from_query_result',
         'oracle:vincenty', 'oracle:closure-only', 'history:confusable-track-built-before',
         'history:confusable-track:minus-one-vs-minus-two', 'duplicate:copy', 'duplicate:deepcopy',
-        'duplicate:pickle']
+        'duplicate:pickle', 'probe:round-trip-track', 'probe:chained-steps-across-the-end']
     return {'classes': cl, 'evaluations': 3000}
 
 
@@ -152,6 +152,11 @@ def run_shard(spec, rec):
         while len(pts) < nwp:
             a, b, c, d = gen_pair(rng, rng.choice(['random', 'antimeridian', 'polar']))
             pts.append((c, d))
+        if nwp >= 3 and rng.random() < 0.3:
+            pts[-1] = pts[0]                 # a round trip: the track returns to its start
+            if pts[-2] == pts[-1]:
+                pts[-2] = (pts[-2][0] * 0.5 + 1.0, pts[-2][1])
+            rec.cls('probe:round-trip-track')
         case = {'kind': kind, 'waypoints': [(round(a, 9), round(b, 9)) for a, b in pts]}
         wps = [Location(longitude=lo, latitude=la) for la, lo in pts]
         # another track built just before, whose way-points differ from this one's in ONE
@@ -305,6 +310,34 @@ def run_shard(spec, rec):
                     else:
                         raise Mismatch('step within the track refused', {'a': a, 'b': b,
                                                                          'error': str(e), **case})
+        # --- a walk in equal steps, each starting exactly where the last one ended, across the
+        # end of the track (how a builder uses the track) ----------------------------------------
+        if refs[-1] is not None and total > 0:
+            last_len = cum[-1] - cum[-2]
+            nst = rng.randint(3, 8)
+            dstep = (last_len * rng.uniform(0.15, 0.6)) if rng.random() < 0.7 else \
+                rng.uniform(1e3, 1e5)
+            a = max(cum[-2], total - dstep * rng.uniform(0.2, nst - 1.5))
+            for i_ in range(nst):
+                if last_len + (a + dstep - total) > 1.9e7:
+                    break
+                rec.ev()
+                try:
+                    p = gto.step(a, dstep)
+                except Exception as e:  # noqa: BLE001
+                    raise Mismatch('allowed overstep raised',
+                                   {'a': a, 'b': dstep, 'chained_step': i_,
+                                    'error': f'{type(e).__name__}: {e}', **case})
+                la, lo, _ = G.direct(pts[-2][0], pts[-2][1], refs[-1][1],
+                                     a + dstep - cum[-2])
+                if check_point(p, la, lo, 'chained step', case) > tol(a + dstep - cum[-2]):
+                    raise Mismatch('a walk in chained steps leaves the great circle once it is '
+                                   'past the end of the track',
+                                   {'from': a, 'step': dstep, 'chained_step': i_, 'total': total,
+                                    'error_m': check_point(p, la, lo, 'chained step', case),
+                                    **case})
+                a = a + dstep             # exactly the previous from + step
+            rec.cls('probe:chained-steps-across-the-end')
         # --- overstep ------------------------------------------------------------------------
         if refs[-1] is not None and total > 0:
             last_len = cum[-1] - cum[-2]
